@@ -101,8 +101,16 @@ func (s *Server) cmdSetHook(msg *Message) (
 		break
 	}
 	args, err := s.cmdSearchArgs(true, cmdlc, vs, types)
+	// a registered hook goes on evaluating its WHEREEVAL clauses
+	var keepLua bool
 	if args.usingLua() {
-		defer args.Close()
+		defer func() {
+			if keepLua {
+				args.Detach()
+			} else {
+				args.Close()
+			}
+		}()
 	}
 	if err != nil {
 		return NOMessage, d, err
@@ -181,6 +189,7 @@ func (s *Server) cmdSetHook(msg *Message) (
 	d.timestamp = time.Now()
 
 	s.hooks.Set(hook)
+	keepLua = true
 	if hook.Fence.detect == nil || hook.Fence.detect["outside"] {
 		s.hooksOut.Set(hook)
 	}
